@@ -82,7 +82,13 @@ def check_table_text(ctx):
             seen.add(k)
         return dict(pairs)
 
-    loaded = json.loads(text, object_pairs_hook=hook)
+    try:
+        loaded = json.loads(text, object_pairs_hook=hook)
+    except ValueError:
+        # the file is no longer plain JSON (the loader may pre-process it): the duplicate-key reading is not available, everything
+        # else in this check works from the table as loaded
+        ctx.count("table_text_not_plain_json")
+        return
     ctx.evaluated()
     ctx.count("table_text_checked")
     for k in dups:
